@@ -472,6 +472,7 @@ func (fc *FnCtx) scanAddrTaken() {
 func (fc *FnCtx) entryState() *State {
 	st := &State{pc: tTrue, vars: map[types.Object]Val{}, ghost: map[string]Val{}, objs: map[int]Val{}, held: map[string]T{}}
 	st.heap = fc.fresh("H0", SHeap)
+	st.cheap = fc.fresh("C0", SHeap)
 	st.nextR = fc.fresh("nextR0", SInt)
 	fc.axiom(lt(mkInt(0), st.nextR))
 	var all []*types.Var
@@ -565,6 +566,17 @@ func (fc *FnCtx) checkPost(st *State, vals []Val, p token.Pos) {
 			bind[n] = vals[i]
 		}
 	}
+	for _, ep := range fc.contract.ElemPtrs {
+		// the returned pointer has to be exactly &slice[idx]
+		env := &specEnv{fc: fc, st: st, old: fc.entry, bind: bind, entryPars: true, keepSlice: true}
+		want, ok := env.eval(ep.Slice).(VSlice)
+		got, ok2 := bind[ep.Res].(VElemPtr)
+		goal := tFalse
+		if ok && ok2 {
+			goal = and(eq(got.S.Rgn, want.Rgn), eq(add(got.S.Off, got.Idx), add(want.Off, asInt(env.eval(ep.Idx)))))
+		}
+		fc.assert(st, "ensures", "elemptr["+ep.Res+"]", goal, p, ep.Res+" == &"+ep.Slice.String()+"["+ep.Idx.String()+"]")
+	}
 	for k, cl := range fc.contract.Ensures {
 		if !fc.clauseActive(cl) {
 			continue
@@ -652,6 +664,9 @@ func (fc *FnCtx) checkFrame(st *State, p token.Pos) {
 // generic slices: minimal support (identity of element reads is not tracked yet)
 
 func (fc *FnCtx) genericRead(st *State, s VSlice, i T) Val {
+	if isCellType(s.Elem) {
+		return fc.cellRead(st, s, i)
+	}
 	if !fc.lenient {
 		panic(unsupported("read of []" + s.Elem.String() + " element"))
 	}
@@ -659,18 +674,31 @@ func (fc *FnCtx) genericRead(st *State, s VSlice, i T) Val {
 	return fc.freshVal(s.Elem, "elem")
 }
 func (fc *FnCtx) genericWrite(st *State, s VSlice, i T, v Val) {
+	if isCellType(s.Elem) {
+		fc.cellWrite(st, s, i, v)
+		return
+	}
 	if !fc.lenient {
 		panic(unsupported("write of []" + s.Elem.String() + " element"))
 	}
 	fc.havocs++
 }
 func (fc *FnCtx) genericFieldLoc(st *State, cur loc, f *types.Var, rest []int, sel *types.Selection) loc {
+	if cur.kind == 2 && isCellType(cur.slice.Elem) && len(rest) == 0 {
+		// a field of a cell-encoded element: read-modify-write of the whole cell (see load / storeLoc)
+		cur.path = append(append([]string{}, cur.path...), f.Name())
+		cur.typ = f.Type()
+		return cur
+	}
 	if !fc.lenient {
 		panic(unsupported("field of slice element"))
 	}
 	return loc{kind: 3, typ: sel.Type()}
 }
 func (fc *FnCtx) genericAppend(st *State, c *ast.CallExpr, dst VSlice) Val {
+	if isCellType(dst.Elem) {
+		return fc.cellAppend(st, c, dst)
+	}
 	for _, a := range c.Args[1:] {
 		fc.eval(st, a)
 	}
@@ -686,6 +714,9 @@ func (fc *FnCtx) genericAppend(st *State, c *ast.CallExpr, dst VSlice) Val {
 	return r
 }
 func (fc *FnCtx) genericCopy(st *State, c *ast.CallExpr, dst VSlice, src Val) Val {
+	if isCellType(dst.Elem) {
+		return fc.cellCopy(st, dst, src)
+	}
 	if !fc.lenient {
 		panic(unsupported("copy of []" + dst.Elem.String()))
 	}
@@ -694,6 +725,9 @@ func (fc *FnCtx) genericCopy(st *State, c *ast.CallExpr, dst VSlice, src Val) Va
 	return VInt{n}
 }
 func (fc *FnCtx) genericSpecElem(env *specEnv, s VSlice, i T) Val {
+	if isCellType(s.Elem) {
+		return fc.decodeCell(sel(sel(env.st.cheap, s.Rgn), add(s.Off, i)), s.Elem, s.Rgn, T{})
+	}
 	panic(unsupported("contract over []" + s.Elem.String() + " elements"))
 }
 
